@@ -239,12 +239,12 @@ def c01_oracle(c, io):
     # (C20/C19 own that clause elsewhere)
     f = OB.c01(c, io)
     if c.meta.get("stream") not in WELLFORMED_STREAMS + (None,):
-        f = [x for x in f if "incremental build aborted/skipped" not in x]
+        f = [x for x in f if "incremental build aborted/skipped" not in x and "from-scratch build aborts" not in x]
     return f
 
 
 PROPS.update({
-    "C01": mk("C01", st(td=4, tdx=2, bu=1, buc=1, failtd=2, panotd=2, panrtd=1, tdr=1, bur=1), 3000, 30000,
+    "C01": mk("C01", st(td=4, tdx=2, bu=1, buc=1, failtd=2, panotd=2, panrtd=1, tdr=1, bur=1, cyc=1, rol=1), 3000, 30000,
               proj_lines(("op ", "out ", "abort ", "done", "skipped", "fs ", "cl ", "known ", "bad-op")), c01_oracle, [],
               proj_name="C01: returned outputs, abort kinds, resource contents, reference builds",
               known_match=known_any(known_if_model_agrees("K5", c01_oracle, pat_failing_stamper),
